@@ -25,7 +25,7 @@ pub fn e1_components() -> Value {
 
 pub fn e1_assumptions() -> Vec<String> {
     vec![
-        "a killed child dies at once and its wait() then returns; signals are delivered instantly".into(),
+        "a killed child dies at once and its wait() then returns (except under the slow-death fault of C04/C09: a configurable lag between kill and death); signals are delivered instantly".into(),
         "one OS thread: interleavings are explored at await-point granularity; any poll order of ready tasks is one the multi-thread runtime can also produce".into(),
         "sampling, not proof: schedules and scenarios are drawn by a seeded PRNG".into(),
     ]
@@ -51,6 +51,11 @@ pub fn e1_stats(scn: &E1Scn, d: &Digest, out: &RunOut, stats: &mut Stats) {
         stats.hit("fault:last-handle-dropped");
     }
     for c in &d.children {
+        if let (Some(k), Some((et, 1009))) = (c.kills.first(), c.exit) {
+            if et > k.0 {
+                stats.hit("fault:slow-death-after-kill");
+            }
+        }
         if let (Some((et, st)), Some(_)) = (c.exit, c.reaped) {
             if st < 1000 {
                 stats.hit("fault:child-self-exit");
@@ -310,7 +315,7 @@ impl Check for C04 {
         }
         // then random: even indices fault-free, odd indices fault-injecting
         let faults = idx % 2 == 1;
-        Some(e1::gen_random(rng, &GenCfg { stalls: true, faults, max_ops: if idx % 5 == 0 { 40 } else { 12 }, max_senders: 3, allow_drop: true }))
+        Some(e1::gen_random(rng, &GenCfg { stalls: true, faults, max_ops: if idx % 5 == 0 { 40 } else { 12 }, max_senders: 3, allow_drop: true, kill_lag: faults }))
     }
     fn execute(&self, scn: &E1Scn, policy: Policy, sched_seed: u64) -> RunOut {
         e1::execute(scn, policy, sched_seed)
@@ -333,7 +338,15 @@ impl Check for C04 {
         E1_RULE.into()
     }
     fn required_probes(&self, _tier: Tier) -> Vec<&'static str> {
-        vec!["probe:respawn-after-reap", "fault:spawn-failure", "fault:child-self-exit", "probe:concurrent-senders", "fault:kill-error", "fault:wait-error"]
+        vec![
+            "probe:respawn-after-reap",
+            "fault:spawn-failure",
+            "fault:child-self-exit",
+            "probe:concurrent-senders",
+            "fault:kill-error",
+            "fault:wait-error",
+            "fault:slow-death-after-kill",
+        ]
     }
     fn components(&self) -> Value {
         e1_components()
@@ -739,7 +752,7 @@ impl Check for C06 {
             0 => gen_settled(rng, true),
             1 => gen_graceful_burst(rng, false),
             2 => gen_graceful_burst(rng, true),
-            _ => e1::gen_random(rng, &GenCfg { stalls: false, faults: idx % 8 == 7, max_ops: 12, max_senders: 3, allow_drop: false }),
+            _ => e1::gen_random(rng, &GenCfg { stalls: false, faults: idx % 8 == 7, max_ops: 12, max_senders: 3, allow_drop: false, kill_lag: false }),
         })
     }
     fn execute(&self, scn: &E1Scn, policy: Policy, sched_seed: u64) -> RunOut {
@@ -991,7 +1004,7 @@ pub fn gen_c07(rng: &mut Rng, idx: u64) -> E1Scn {
         1 => gen_graceful_burst(rng, true),
         2 => {
             // error handler installed first, then random single-sender sequence with faults
-            let mut s = e1::gen_random(rng, &GenCfg { stalls: false, faults: true, max_ops: 10, max_senders: 1, allow_drop: false });
+            let mut s = e1::gen_random(rng, &GenCfg { stalls: false, faults: true, max_ops: 10, max_senders: 1, allow_drop: false, kill_lag: false });
             for st in s.senders[0].iter_mut() {
                 if matches!(st.op, Op::SetErr { .. } | Op::UnsetErr) {
                     st.op = Op::Run;
@@ -1002,8 +1015,8 @@ pub fn gen_c07(rng: &mut Rng, idx: u64) -> E1Scn {
             s
         }
         3 => gen_settled(rng, false),
-        4 => e1::gen_random(rng, &GenCfg { stalls: true, faults: false, max_ops: 14, max_senders: 3, allow_drop: true }),
-        _ => e1::gen_random(rng, &GenCfg { stalls: true, faults: true, max_ops: 14, max_senders: 3, allow_drop: true }),
+        4 => e1::gen_random(rng, &GenCfg { stalls: true, faults: false, max_ops: 14, max_senders: 3, allow_drop: true, kill_lag: false }),
+        _ => e1::gen_random(rng, &GenCfg { stalls: true, faults: true, max_ops: 14, max_senders: 3, allow_drop: true, kill_lag: false }),
     }
 }
 
@@ -1290,7 +1303,7 @@ impl Check for C10 {
             0 => gen_hi_over_normal(rng),
             1 | 2 => gen_order(rng),
             3 => gen_graceful_burst(rng, false),
-            _ => e1::gen_random(rng, &GenCfg { stalls: true, faults: false, max_ops: 16, max_senders: 3, allow_drop: false }),
+            _ => e1::gen_random(rng, &GenCfg { stalls: true, faults: false, max_ops: 16, max_senders: 3, allow_drop: false, kill_lag: false }),
         })
     }
     fn execute(&self, scn: &E1Scn, policy: Policy, sched_seed: u64) -> RunOut {
